@@ -109,6 +109,9 @@ pub fn main(table: Vec<Entry>) -> i32 {
     let ctx = GCtx { tier, seed, findings: Findings::load(), corpus: thrift_corpus(seed, tier), table: map, replay, skip: std::env::var("VERIF_SKIP").ok().and_then(|s| s.parse().ok()).unwrap_or(0), counter: std::cell::Cell::new(0) };
     vcore::evidence::quiet_panics();
     if let Some(k) = side {
+        if id == "C09" && k == "deep-chain" {
+            return more::c09_deep_child(&ctx);
+        }
         if id == "C09" {
             return more::c09_side_child(&ctx);
         }
